@@ -20,6 +20,84 @@ pub struct Case {
     pub t: Vec<usize>,
     pub t2: Option<Vec<usize>>,
     pub none_pred: bool,
+    /// how the tree is built from `pred` (0 = `From<Vec>`; see `build_tree`)
+    #[serde(default)]
+    pub build: u8,
+    /// re-entrant predicate: `Some((kind, r))` makes the predicate also call
+    /// `search(v, r)` on a second tree derived from `pred` (see `second_tree`)
+    #[serde(default)]
+    pub inner: Option<(u8, usize)>,
+}
+
+/// The same abstract vector reached through the different public routes: the
+/// constructor, the public field, Index/IndexMut, Clone.
+fn build_tree(pred: &[Option<usize>], build: u8) -> PredecessorTree {
+    let n = pred.len();
+    match build % 8 {
+        1 => {
+            let mut t = PredecessorTree::new(n);
+            for (v, p) in pred.iter().enumerate() {
+                t[v] = *p;
+            }
+            t
+        }
+        2 => {
+            let mut t = PredecessorTree::new(1);
+            t.pred = pred.to_vec();
+            t
+        }
+        3 => {
+            // grown through the public field after construction
+            let k = (n / 2).max(1);
+            let mut t = PredecessorTree::new(k);
+            for v in 0..k {
+                t.pred[v] = pred[v];
+            }
+            for p in &pred[k..] {
+                t.pred.push(*p);
+            }
+            t
+        }
+        4 => {
+            // shrunk through the public field
+            let mut v = pred.to_vec();
+            v.extend([Some(0), None, Some(n)]);
+            let mut t = PredecessorTree::from(v);
+            t.pred.truncate(n);
+            t
+        }
+        5 => PredecessorTree::from(pred.to_vec()).clone(),
+        6 => {
+            let mut t = PredecessorTree::new(n + 3);
+            t.clone_from(&PredecessorTree::from(pred.to_vec()));
+            t
+        }
+        7 => {
+            let mut t = PredecessorTree::new(1);
+            t.pred.extend(pred[1..].iter().copied());
+            t.pred[0] = pred[0];
+            t
+        }
+        _ => PredecessorTree::from(pred.to_vec()),
+    }
+}
+
+/// A second vector for the re-entrant predicate: the same one, a shorter one
+/// (entries clipped into range) or a longer one.
+fn second_tree(pred: &[Option<usize>], kind: u8) -> Vec<Option<usize>> {
+    let n = pred.len();
+    match kind % 3 {
+        0 => pred.to_vec(),
+        1 => {
+            let k = (n / 2).max(1);
+            pred[..k].iter().map(|p| p.map(|x| x % k)).collect()
+        }
+        _ => {
+            let mut v: Vec<Option<usize>> = pred.iter().rev().copied().collect();
+            v.extend([Some(n), Some(0), None]);
+            v
+        }
+    }
 }
 
 pub struct C19;
@@ -48,10 +126,10 @@ impl Prop for C19 {
     type Case = Case;
     const ID: &'static str = "C19";
     const NUM: u64 = 19;
-    const RULE: &'static str = "predecessor vectors of length 1..12 (each entry None or any in-range vertex: trees, rho-shapes, pure cycles, self-references), every start vertex class, predicates 'vertex in T', 'predecessor is None', 'vertex in T or predecessor in T2', and search(s, t) for every t; enum leg: every vector of length <=4 (quick) / <=5 (thorough) x every start x every single target. Termination is decided without a clock: the predicate counts its own invocations and panics after 2*len+4 calls. One case in 5 has a vector of length 13..140 or one of {33,34,64,65,66,128,129,257} with long scrambled chains. Non-trivial = the chain from s enters a cycle, or the first target lies on a tail at distance >=2; distinct = distinct serialised case.";
+    const RULE: &'static str = "predecessor vectors of length 1..12 (each entry None or any in-range vertex: trees, rho-shapes, pure cycles, self-references), every start vertex class, predicates 'vertex in T', 'predecessor is None', 'vertex in T or predecessor in T2', and search(s, t) for every t; the tree is built through one of eight public routes (From<Vec>, new + IndexMut, assigning / pushing / extending / truncating the public `pred` field, clone, clone_from) and one case in four uses a predicate that itself calls search on a second tree (the same, a shorter or a longer one); enum leg: every vector of length <=4 (quick) / <=5 (thorough) x every start x every single target. Termination is decided without a clock: the predicate counts its own invocations and panics after 2*len+4 calls. One case in 5 has a vector of length 13..140 or one of {33,34,64,65,66,128,129,257} with long scrambled chains. Non-trivial = the chain from s enters a cycle, or the first target lies on a tail at distance >=2; distinct = distinct serialised case.";
     const ASSUMPTIONS: &'static [&'static str] = &[
         "entries are in range (out-of-range entries are C13's concern)",
-        "predicates are pure functions of (vertex, predecessor)",
+        "predicates are pure functions of (vertex, predecessor); they may call search on another tree",
     ];
 
     fn legs(tier: Tier) -> Vec<Leg> {
@@ -86,8 +164,9 @@ impl Prop for C19 {
             any::<u8>(),
             any::<u64>(),
             any::<u8>(),
+            (any::<u8>(), any::<u8>(), any::<u16>()),
         )
-            .prop_map(|(n, raw, shape, sraw, tbits, tclass, t2bits, pclass)| {
+            .prop_map(|(n, raw, shape, sraw, tbits, tclass, t2bits, pclass, (build, ikind, iraw))| {
                 let pred: Vec<Option<usize>> = (0..n)
                     .map(|v| {
                         let (r, k) = raw[v];
@@ -131,7 +210,12 @@ impl Prop for C19 {
                     1 => (None, true),
                     _ => (None, false),
                 };
-                Case { pred, s, t, t2, none_pred }
+                // one case in four has a predicate that searches a second tree
+                let inner = (ikind % 4 == 0).then(|| {
+                    let k = ikind / 4;
+                    (k, gen::idx(iraw, second_tree(&pred, k).len()))
+                });
+                Case { pred, s, t, t2, none_pred, build, inner }
             })
             .boxed()
     }
@@ -161,6 +245,8 @@ impl Prop for C19 {
                     t: vec![t],
                     t2: None,
                     none_pred: false,
+                    build: (idx % 8) as u8,
+                    inner: None,
                 });
             }
             idx -= block;
@@ -171,13 +257,35 @@ impl Prop for C19 {
     fn check(c: &Case, obs: &mut Obs) -> Verdict {
         let n = c.pred.len();
         ensure!(c.s < n && c.pred.iter().flatten().all(|&p| p < n), "harness: out-of-range case");
-        let tree = PredecessorTree::from(c.pred.clone());
+        let tree = build_tree(&c.pred, c.build);
+        ensure!(
+            tree.pred == c.pred,
+            "building the tree through route {} gives {:?} for the vector {:?}",
+            c.build % 8,
+            tree.pred,
+            c.pred
+        );
+        let second: Option<(Vec<Option<usize>>, PredecessorTree, usize)> =
+            c.inner.map(|(k, r)| (second_tree(&c.pred, k), build_tree(&second_tree(&c.pred, k), c.build / 8), r));
         let tset: BTreeSet<usize> = c.t.iter().copied().collect();
         let t2set: Option<BTreeSet<usize>> = c.t2.as_ref().map(|t| t.iter().copied().collect());
         let pure = |v: usize, p: Option<usize>| {
             tset.contains(&v)
                 || (c.none_pred && p.is_none())
                 || t2set.as_ref().is_some_and(|t2| p.is_some_and(|p| t2.contains(&p)))
+                || second
+                    .as_ref()
+                    .is_some_and(|(b, _, r)| v < b.len() && reference(b, v, &|x, _| x == *r).is_some())
+        };
+        // what the library is given: the same predicate, except that its last
+        // clause asks the library itself (a search inside a search)
+        let asked = |v: usize, p: Option<usize>| {
+            tset.contains(&v)
+                || (c.none_pred && p.is_none())
+                || t2set.as_ref().is_some_and(|t2| p.is_some_and(|p| t2.contains(&p)))
+                || second
+                    .as_ref()
+                    .is_some_and(|(b, bt, r)| v < b.len() && bt.search(v, *r).is_some())
         };
         let limit = 2 * n + 4;
         let calls = Cell::new(0_usize);
@@ -185,7 +293,7 @@ impl Prop for C19 {
             tree.search_by(c.s, |&v, &p| {
                 calls.set(calls.get() + 1);
                 assert!(calls.get() <= limit, "predicate budget exhausted: search_by does not terminate");
-                pure(v, p)
+                asked(v, p)
             })
         });
         let got = match got {
@@ -200,12 +308,13 @@ impl Prop for C19 {
         let want = reference(&c.pred, c.s, &pure);
         ensure!(
             got == want,
-            "search_by({}, pred) on {:?} with targets {:?}/{:?}/none_pred={} returned {got:?}; following predecessor links gives {want:?}",
+            "search_by({}, pred) on {:?} with targets {:?}/{:?}/none_pred={}/inner search {:?} returned {got:?}; following predecessor links gives {want:?}",
             c.s,
             c.pred,
             c.t,
             c.t2,
-            c.none_pred
+            c.none_pred,
+            c.inner
         );
         if let Some(p) = &got {
             ensure!(p[0] == c.s, "path {p:?} does not start at {}", c.s);
@@ -246,6 +355,10 @@ impl Prop for C19 {
             obs.label("self-reference-at-start");
         }
         obs.label(if want.is_some() { "found" } else { "not-found" });
+        obs.label(format!("build-route={}", c.build % 8));
+        if c.inner.is_some() {
+            obs.label("predicate-searches-a-second-tree");
+        }
         if cyc || far {
             obs.nontrivial();
         }
